@@ -64,6 +64,7 @@ def alphabet(tier):
     ops.append(("redir", "T2", "T1"))
     ops.append(("redir", "T1", "T2"))
     ops.append(("redir", "M1", "Bar"))         # redirect to an absent page
+    ops.append(("redir", "M1", "T1"))          # redirect into another namespace
     ops.append(("commit",))
     ops.append(("reopen",))
     for i in IDENT:
